@@ -38,6 +38,10 @@ pub struct C03Plan {
     pub input: Input,
     pub dict: Option<HostileDict>,
     pub program: Program,
+    /// optionally a second hostile input decoded on the same decoder after reset (state-dependent corruption: treeless
+    /// literals / repeat-mode tables planted in a block, which must give an error whatever the earlier frame left behind)
+    #[serde(default)]
+    pub second: Option<Input>,
     /// valid frame decoded on the same decoder afterwards
     pub recovery: FrameSpec,
 }
@@ -84,7 +88,7 @@ pub fn input_bytes(i: &Input) -> Result<(Vec<u8>, Option<std::sync::Arc<Frame>>)
 }
 
 fn gen_source_faults(r: &mut Rng, len: usize, hot: &[usize]) -> SourceScript {
-    let mut s = SourceScript { chunks: gen_chunks(r), eof_at: None, faults: vec![] };
+    let mut s = SourceScript { chunks: gen_chunks(r), eof_at: None, faults: vec![], pauses: vec![] };
     match r.below(6) {
         0 => {
             s.eof_at = Some(if !hot.is_empty() && r.chance(1, 2) { *r.pick(hot) as u64 } else { r.usize_below(len.max(1)) as u64 });
@@ -107,6 +111,9 @@ impl Engine for C03 {
         "C03"
     }
     fn runs(&self, tier: Tier) -> u64 {
+        if small_mode() {
+            return 200;
+        }
         match tier {
             Tier::Quick => 800_000,
             Tier::Thorough => 8_000_000,
@@ -119,7 +126,14 @@ impl Engine for C03 {
             Tier::Quick => 400,
             Tier::Thorough => 4000,
         };
-        let prof = GenProfile::standard(32 * 1024);
+        let mut prof = GenProfile::standard(32 * 1024);
+        let mut pool = pool;
+        if small_mode() {
+            // the size used under Miri: frames <= 2 KiB
+            prof.max_len = 2048;
+            prof.max_corpus_frame = 2048;
+            pool = 80;
+        }
         let c = corpus();
         let dict = if HAVE_REFERENCE && r.chance(1, 6) {
             let d = r.pick(&[DictSpec::Repo, DictSpec::Trained { seed: 11, size: 4096 }, DictSpec::TrainedRep { seed: 12, size: 1024, rep: [97, 2, 350] }]).clone();
@@ -185,7 +199,23 @@ impl Engine for C03 {
         let mut rp = prof;
         rp.max_len = 8 * 1024;
         let recovery = draw_frame_spec(&mut r, &rp, pool.min(200));
-        C03Plan { input, dict, program, recovery }
+        let second = if r.chance(1, 3) {
+            let frame = draw_frame_spec(&mut r, &rp, pool.min(200));
+            match get_frame(&frame) {
+                Ok(f) => {
+                    let mut faults = crate::c07::state_dependent_faults(&mut r, &f);
+                    if faults.is_empty() || r.chance(1, 4) {
+                        let hot = f.info.hot_positions(&f.bytes);
+                        faults = faults::gen_faults(&mut r, f.bytes.len(), &hot, 3);
+                    }
+                    Some(Input::Corrupt { frame, faults })
+                }
+                Err(_) => None,
+            }
+        } else {
+            None
+        };
+        C03Plan { input, dict, program, second, recovery }
     }
 
     fn exec(&self, plan: &C03Plan, stats: &mut Stats, log: Option<&mut Vec<Value>>) -> Result<RunOutcome, HarnessError> {
@@ -273,6 +303,17 @@ impl Engine for C03 {
             }
             trace = Some(t);
         }
+        // a second hostile input on the same decoder (legal: reset after an error, or after a completed / abandoned frame)
+        if let (true, Some(inp), true) = (v.is_none(), &plan.second, plan.program.front != FrontEnd::StreamOwned) {
+            let (b2, _) = input_bytes(inp)?;
+            let prog = Program { front: if plan.program.front == FrontEnd::Slice { FrontEnd::Slice } else { FrontEnd::Reader }, ops: vec![Op::Decode(Strat::Blocks(1)), Op::Collect, Op::Slice { give: usize::MAX, target: 4096 }], source: SourceScript::plain(), finisher: true, explicit_init: true, target: 0, prefix: 0 };
+            let t = run_frame(&mut dec, &b2, &prog, Some(b2.len() / 3 + 4), &Limits { max_delivered: 32 << 20, finisher_slack: 2 });
+            d.u64(t.digest());
+            stats.inc("probe.second_hostile_input_on_same_decoder");
+            if let Some(p) = &t.panic {
+                v = Some(violation(format!("C03/panic:{}", panic_site(p)), format!("second input on the reused decoder: {p}")));
+            }
+        }
         // recovery: the same decoder can be reset and used again (not for the front end that owns its decoder)
         let mut recovered = None;
         if v.is_none() && plan.program.front != FrontEnd::StreamOwned {
@@ -315,6 +356,9 @@ impl Engine for C03 {
         let mut out = Vec::new();
         if plan.dict.is_some() {
             out.push(C03Plan { dict: None, ..plan.clone() });
+        }
+        if plan.second.is_some() {
+            out.push(C03Plan { second: None, ..plan.clone() });
         }
         if let Some(h) = &plan.dict {
             for f in faults::shrink_faults(&h.faults) {
@@ -365,6 +409,9 @@ impl Engine for C03 {
     }
 
     fn expected_reach(&self, _tier: Tier) -> Vec<&'static str> {
+        if small_mode() {
+            return vec!["input.corrupted_frame"];
+        }
         vec![
             "input.corrupted_frame",
             "input.fuzz_artifact",
@@ -387,6 +434,7 @@ impl Engine for C03 {
             "outcome.finished",
             "outcome.finished_with_different_bytes",
             "probe.recovery_after_error",
+            "probe.second_hostile_input_on_same_decoder",
             "front.reader",
             "front.slice",
             "front.stream_owned",
